@@ -129,6 +129,7 @@ pub fn worker_main(check: &str, tier: Tier, base: u64, start: u64, stride: u64, 
     let scratch = Scratch::new(&format!("w{start}"));
     let mut i = start;
     let mut since = 0;
+    let mut early = 8;
     let mut last_ckpt = std::time::Instant::now();
     while i < runs {
         let seed = base.wrapping_add(i);
@@ -138,7 +139,10 @@ pub fn worker_main(check: &str, tier: Tier, base: u64, start: u64, stride: u64, 
         since += 1;
         // checkpoints by count and by (monotonic) time, so that a library that crashes or hangs every few
         // runs does not wipe out everything the worker has seen
-        if since >= 500 || last_ckpt.elapsed().as_millis() >= 1500 {
+        // (the first checkpoints of a process come after 8, 16, 32, ... runs: a library that hangs within
+        // the first second of every worker would otherwise leave nothing behind at all)
+        if since >= early.min(500) || last_ckpt.elapsed().as_millis() >= 1500 {
+            early = (early * 2).min(500);
             since = 0;
             last_ckpt = std::time::Instant::now();
             writeln!(f, "S {}", serde_json::to_string(&sum).unwrap()).ok();
@@ -652,7 +656,7 @@ pub fn check_main(a: CheckArgs) -> i32 {
                 let path = replays.join(format!("process-crash-{}.json", a.seed.wrapping_add(*idx)));
                 let rf = ReplayFile {
                     format: 1,
-                    property: "C14".into(),
+                    property: if a.check == "C18" { "C18".into() } else { "C14".into() },
                     clause: "process-crash".into(),
                     site: "process-crash".into(),
                     seed: a.seed.wrapping_add(*idx),
@@ -666,8 +670,11 @@ pub fn check_main(a: CheckArgs) -> i32 {
                 if matches_known(&known, "C14", "process-crash", why).is_some() {
                     continue;
                 }
-                if a.check == "C14" {
-                    println!("VIOLATION property=C14 replay={}", path.display());
+                if a.check == "C14" || a.check == "C18" {
+                    // (C18 promises a recording for every tree; a recorder that aborts the process or
+                    // never returns - e.g. because it opens something that is not a regular file -
+                    // does not deliver one: the same replay file, reported under the check's own id)
+                    println!("VIOLATION property={} replay={}", a.check, path.display());
                     confirmed_violations += 1;
                     exit = 1;
                 } else if crash_reports <= 3 {
